@@ -398,4 +398,4 @@ MANIFEST = {
     'design_ref': 'DESIGN.md 3/C12',
 }
 MANIFEST['note'] += (' Also decided here (necessary conditions shared between properties or added after the independent '
-                     'change rounds, DESIGN.md 8.7): traffic-selector codec hands fields on unchanged (from C05), each connection owns its protect list (from C19), inbound SA selectors/ports.')
+                     'change rounds, DESIGN.md 8.7): traffic-selector codec hands fields on unchanged (from C05), each connection owns its protect list (from C19), inbound SA selectors/ports. Rounds 7-8: configuration loaders never write to the mapping they read.')
